@@ -1,12 +1,12 @@
 """C12 - the expression parser is total and stable under re-printing and extra spacing."""
 from ..report import Check
 from ..kernels.base import run_kernel
-from ..kernels import c12_lexer
+from ..kernels import c12_lexer, c03_indicator
 
 
 def run(tier, seed):
     chk = Check("C12", tier, seed, "other")
-    for k in c12_lexer.KERNELS:
+    for k in c12_lexer.KERNELS + c03_indicator.KERNELS:
         chk.add_kernel(run_kernel(k, tier))
     from .. import frame
     ok, sites, failing = frame.rule_dispatch()
